@@ -65,6 +65,7 @@ impl PriorityReceiver {
 
 		if let Some(timer) = stop_timer.clone() {
 			select! {
+				biased;
 				() = timer.to_sleep() => {
 					*stop_timer = None;
 					Some(timer.to_control())
@@ -74,6 +75,7 @@ impl PriorityReceiver {
 			}
 		} else {
 			select! {
+				biased;
 				message = self.urgent.recv() => message,
 				message = self.high.recv() => message,
 				message = self.normal.recv() => message,
